@@ -114,7 +114,7 @@ func limitGuard(conds []engine.Cond, counter, max *types.Var, amount ssa.Value) 
 		if !ok || s.Op != token.ADD {
 			continue
 		}
-		if (isLoadOfField(s.X, counter) && engine.SameValue(s.Y, amount)) || (isLoadOfField(s.Y, counter) && engine.SameValue(s.X, amount)) {
+		if (isLoadOfField(s.X, counter) && engine.SameValue(cd.R(s.Y), amount)) || (isLoadOfField(s.Y, counter) && engine.SameValue(cd.R(s.X), amount)) {
 			return true
 		}
 	}
